@@ -31,7 +31,7 @@ func (c14) Rule() string {
 }
 func (c14) Batches(string) int { return 16 }
 func (c14) Required(string) []string {
-	return []string{"compared", "invocations", "variant.pooled", "variant.unpooled", "variant.reused", "nested_invocations", "errors_propagated", "tag.call-variadic", "tag.call-spread", "tag.assign-captured", "concurrent_runs", "tail_mix_programs"}
+	return []string{"compared", "invocations", "variant.pooled", "variant.unpooled", "variant.reused", "variant.recycled", "recycled_invoker_rounds", "nested_invocations", "errors_propagated", "tag.call-variadic", "tag.call-spread", "tag.assign-captured", "concurrent_runs", "tail_mix_programs"}
 }
 func (c14) Assumptions() []string {
 	return []string{"run A (in-script calls through a script-defined CALL) is the reference", "the process-wide VM pool is primed by the previously executed programs of the same batch"}
@@ -48,12 +48,13 @@ type c14wit struct {
 }
 
 type c14stats struct {
-	argsModified string // set when an Invoke changed the host's argument slice
-	mu           sync.Mutex
-	invokes      int
-	nested       int
-	errs         int
-	depth        int
+	argsModified   string // set when an Invoke changed the host's argument slice
+	recycledRounds int
+	mu             sync.Mutex
+	invokes        int
+	nested         int
+	errs           int
+	depth          int
 }
 
 // c14call builds the Go CALL callback for a variant.
@@ -75,6 +76,7 @@ func c14call(variant string, st *c14stats) (*ugo.Function, func()) {
 		if st.depth > 1 {
 			st.nested++
 		}
+		fromRoot := st.depth == 1 // the caller is the VM running the script itself, which lives as long as the run
 		st.mu.Unlock()
 		defer func() {
 			st.mu.Lock()
@@ -105,6 +107,35 @@ func c14call(variant string, st *c14stats) (*ugo.Function, func()) {
 			inv.Release()
 		case "unpooled":
 			v, err = ugo.NewInvoker(c.VM(), f).Invoke(args...)
+		case "recycled":
+			// one Invoker object per function, used for many rounds of Acquire / Invoke / Release
+			// (an Invoker belongs to the VM it was made for: only those made for the root VM are kept between calls;
+			// calls coming from a child VM, which is recycled when its callback returns, get a throw-away one)
+			var inv *ugo.Invoker
+			if fromRoot {
+				mu.Lock()
+				inv = reused[f]
+				if inv != nil {
+					delete(reused, f) // taken out while in use (re-entrant calls get their own)
+				}
+				mu.Unlock()
+			}
+			if inv == nil {
+				inv = ugo.NewInvoker(c.VM(), f)
+			}
+			inv.Acquire()
+			v, err = inv.Invoke(args...)
+			inv.Release()
+			if fromRoot {
+				st.mu.Lock()
+				st.recycledRounds++
+				st.mu.Unlock()
+				mu.Lock()
+				if _, exists := reused[f]; !exists {
+					reused[f] = inv
+				}
+				mu.Unlock()
+			}
 		default: // reused: only safe when the same function is not re-entered; fall back to a fresh pooled one when busy
 			mu.Lock()
 			inv := reused[f]
@@ -135,7 +166,9 @@ func c14call(variant string, st *c14stats) (*ugo.Function, func()) {
 	cleanup := func() {
 		mu.Lock()
 		for _, inv := range reused {
-			inv.Release()
+			if variant != "recycled" {
+				inv.Release()
+			}
 		}
 		mu.Unlock()
 	}
@@ -211,6 +244,7 @@ func (m c14) pair(c *core.Ctx, src string, modules map[string]string, args []ugo
 	c.CountN("invocations", int64(st.invokes))
 	c.CountN("nested_invocations", int64(st.nested))
 	c.CountN("errors_propagated", int64(st.errs))
+	c.CountN("recycled_invoker_rounds", int64(st.recycledRounds))
 	// globals: B has the extra CALL entry
 	bg := strings.Replace(b.Globals, "\"CALL\":<fn>,", "", 1)
 	if a.Kind != b.Kind || a.Value != b.Value || a.Log != b.Log || a.ErrName != b.ErrName || a.ErrMsg != b.ErrMsg || a.Globals != bg {
@@ -248,7 +282,7 @@ var c14probes = []string{
 
 func (m c14) Run(c *core.Ctx) {
 	mod0 := map[string]string{"mod0": "global L\nstate := 1\nL(\"mod0-body\")\nreturn {bump: func(d) { state += d; return state }, get: func() { return state }, dep: func() { return -state }}\n"}
-	variants := []string{"pooled", "unpooled", "reused"}
+	variants := []string{"pooled", "unpooled", "reused", "recycled"}
 	if c.Replay != nil {
 		var w c14wit
 		if json.Unmarshal(c.Replay, &w) == nil && w.Src != "" {
@@ -314,7 +348,7 @@ func (m c14) Run(c *core.Ctx) {
 		for j := range args {
 			args[j] = ugo.Int(c.Rng.Intn(5) - 1)
 		}
-		v := variants[c.Rng.Intn(3)]
+		v := variants[c.Rng.Intn(len(variants))]
 		src := gp.Src
 		if !c.Begin(func() string { return v + "\n" + src + fmt.Sprintf("\n// modules %v", gp.Modules) }) {
 			continue
